@@ -136,6 +136,8 @@ def main(tier="quick", seed=0, only=None):
     bases = basegen.all_bases(tier)
     tasks = []
     for i, b in enumerate(bases):
+        if not b["has_crc"]:
+            continue  # the property quantifies over archives with per-file CRCs; without any CRC damage is undetectable by design
         n = sum(1 for _ in damage_images(b["blob"], b["packed"]))
         step = 800
         for lo in range(0, n, step):
@@ -147,7 +149,7 @@ def main(tier="quick", seed=0, only=None):
         res = pool.map(f"{MODULE}:shard", tasks, soft=1800, hard=2400)
     for t, r in zip(tasks, res):
         chk.merge_pool([r], plane=bases[t[0]]["name"])
-    chk.extra["bases"] = [{"name": b["name"], "bytes": len(b["blob"])} for b in bases]
+    chk.extra["bases"] = [{"name": b["name"], "bytes": len(b["blob"])} for b in bases if b["has_crc"]]
     return chk.finish(
         rule=(
             f"{len(bases)} base archives (py7zr-written: codec families x raw/encoded/encrypted header x 1..4 folders; reference-written: folder "
